@@ -365,11 +365,40 @@ class Gen:
             while len(sigs) < len(exp):
                 sigs.append(tuple(shape_sig(x) for x in tree + det))
 
+        pend = []        # directed follow-ups of an add_tree: ("X", TREE node) / ("K", detached root)
         for _ in range(nops):
             sync()
             fo = forest()
             r = rng.below(100)
             done = False
+            if pend:
+                kind, target = pend.pop(0)
+                if kind == "X":
+                    # extract a node of the parent chain of the TREE node (the node itself, its parent, ... up to the root):
+                    # the detached sub-tree then owns the nested tree
+                    par = {id(n): p for n, p in fo}
+                    chain, cur = [], target
+                    while cur is not None and id(cur) in par and not any(cur is d for d in det):
+                        chain.append(cur)
+                        cur = par[id(cur)]
+                    if chain:
+                        n = rng.choice(chain)
+                        p = par[id(n)]
+                        ops.append("X,%d" % idx_of(n, fo))
+                        if p is None:
+                            tree.remove(n)
+                        else:
+                            del p.kids[idx_in(p.kids, n)]
+                        det.append(n)
+                        exp.append(("ok", None))
+                        if rng.chance(1, 2):
+                            pend.append(("K", n))          # destroyed by the caller before the tree; else left to the end
+                        continue
+                elif kind == "K" and any(target is d for d in det):
+                    ops.append("K,%d" % idx_of(target, fo))
+                    det.remove(target)
+                    exp.append(("ok", None))
+                    continue
             if not tree and (r < 70 or not det):
                 # root element: the language's own root (so that the XML front end finds the language) most of the time
                 if lang["root"] and NAME_OK.match(lang["root"]) and rng.chance(5, 6):
@@ -483,8 +512,11 @@ class Gen:
                 if tx:
                     sub.kids.append(SNode("x", text=tx))
                 ops.append("R,%d,%d,%s,%s" % (pi, sub_lang, hx(nm), hx(tx)))
-                snoc_merge(pn, SNode("r", lang=sub_lang, sub=sub))
+                tnode = SNode("r", lang=sub_lang, sub=sub)
+                snoc_merge(pn, tnode)
                 exp.append(("ok", None))
+                if rng.chance(2, 3):
+                    pend.append(("X", tnode))
                 done = True
             elif r < 74:
                 cands = [(i, n) for i, (n, _) in enumerate(fo) if n.kind == "e"]
